@@ -20,3 +20,11 @@ add("C02", "stateful property-based testing: random undo/redo/new-op walks vs li
 add("C04", "fault-argument enumeration + property-based prefixes: failed call must leave snapshot and history unchanged",
     "A finite table of (operation kind, invalid-argument class) pairs covering every class named in the property (nonexistent sheet, out-of-grid coordinates, ranges crossing the grid edge, non-positive counts, negative sizes, invalid timezone/locale/colour/style path/value, duplicate/invalid sheet, defined and style names, edits splitting an array formula, inserts pushing data off the grid, deleting the only sheet, unknown conditional-format index/range) is enumerated completely after fixed prefixes and sampled after generated histories with a non-empty redo list. Whenever the call returns Err the snapshot, can_undo/can_redo and stack lengths must be unchanged and the next undo must behave as in the same history without the failed call.",
     "Trusted: snapshot reader, hook H2. Only calls that return Err are asserted (accepted or panicking calls are labelled). View state excluded.")
+
+add("C03", "stateful property-based testing with generated flush schedules: origin vs replica snapshot equality",
+    "Generated histories (operations, undo, redo) on an origin model with a generated flush schedule (Flush markers at generated points, after every step, once at the end); a replica loaded from the origin's initial bytes applies every flushed batch; after each batch apply_external_diffs must return Ok and the observable snapshots (minus view state) must be equal. The harness owns the schedule, so 'any choice of when the queue is flushed' is explored as a generated parameter; a failing case is re-run with per-step flushes to name the first diverging operation.",
+    "Trusted: snapshot reader. Single replica, same language on both sides; restricted generator profiles while findings are listed; conditional-format rules with a differential format are not sent (listed finding).")
+
+add("C26", "property-based round trip over states reached by generated histories: decode(encode(W)) == W and snapshot equality after reload",
+    "States reached by generated UserModel histories (restricted profiles plus the full operation language in en/en) are serialised with to_bytes and loaded with from_bytes; the decoded Workbook value must equal the original and the observable snapshot after evaluate must be the same (contents, formula texts, typed values, styles, structure).",
+    "Trusted: snapshot reader, Workbook: PartialEq. Error message/origin strings are stripped before comparison. Non-English language/locale states and CSE array formulas are excluded from the campaigns while the corresponding findings are listed (replay files keep them exercised).")
